@@ -582,6 +582,7 @@ type mode struct {
 	alias bool   // the reader is opened over the slice ToByteArray() returned, not over a copy of it
 	scrib bool   // the caller overwrites some arguments after the write returned and some results it was handed
 	late  []item // write calls on the output after the reader was opened, between the reads
+	net   int    // > 0: the reader is opened over a connection that cuts the bytes this way (net.go: segWhole..)
 }
 
 func (m mode) String() string {
@@ -597,6 +598,9 @@ func (m mode) String() string {
 	}
 	if len(m.late) > 0 {
 		s += fmt.Sprintf("l%d", len(m.late))
+	}
+	if m.net > 0 {
+		s += "n" + segNames[m.net]
 	}
 	return s
 }
@@ -619,6 +623,10 @@ func streamM(c *core.Ctx, t *core.Trace, gen string, cas int, items []item, m mo
 	out := gio.NewDataOutputX()
 	prev := 0
 	key := ""
+	if m.net > 0 {
+		m.quiet = false // the cuts are placed by the encoded lengths
+	}
+	var flen []int // encoded length of every element
 	for _, it := range items {
 		msg := core.Guard(func() { it.wr(out) })
 		if m.scrib && it.wscrib != nil && coin(2) {
@@ -629,6 +637,7 @@ func streamM(c *core.Ctx, t *core.Trace, gen string, cas int, items []item, m mo
 			all := out.ToByteArray()
 			ev["out"], ev["size"] = core.Cp(all[prev:]), out.Size()
 			key += fmt.Sprintf("%s:%d;", it.op, len(all)-prev)
+			flen = append(flen, len(all)-prev)
 			prev = len(all)
 		} else {
 			key += fmt.Sprintf("%s:q%d;", it.op, it.n)
@@ -644,13 +653,28 @@ func streamM(c *core.Ctx, t *core.Trace, gen string, cas int, items []item, m mo
 	if m.quiet || len(whole) <= againMax {
 		open["bytes"], open["size"] = core.Cp(whole), out.Size()
 	}
-	t.Emit(open)
 	var in *gio.DataInputX
-	if m.alias {
+	var conn *segConn
+	if m.net > 0 {
+		// the transport carries the produced bytes (alias: the very slice ToByteArray() returned) and, behind
+		// them, bytes that belong to nobody: a reader that takes more than its elements is seen by the count
+		if r == nil {
+			r = rand.New(rand.NewSource(int64(cas)))
+		}
+		segs := segments(r, m.net, flen)
+		open["net"], open["segs"] = true, segsNote(m.net, segs)
+		data := whole
+		if !m.alias {
+			data = append(core.Cp(whole), 0xee, 0xdd, 0xcc, 0xbb, 0xee, 0xdd, 0xcc, 0xbb, 0xee, 0xdd, 0xcc, 0xbb, 0xee, 0xdd, 0xcc, 0xbb)
+		}
+		conn = &segConn{data: data, segs: segs}
+		in = gio.NewDataInputNet(conn)
+	} else if m.alias {
 		in = gio.NewDataInputX(whole)
 	} else {
 		in = gio.NewDataInputX(core.Cp(whole))
 	}
+	t.Emit(open)
 	prev = len(whole)
 	kept := make([]bool, len(items)) // results the caller still holds unchanged
 	seen := make([]int, len(items))  // number of calls on either stream when result j was last looked at
@@ -686,13 +710,29 @@ func streamM(c *core.Ctx, t *core.Trace, gen string, cas int, items []item, m mo
 			doLate()
 		}
 		var ret interface{}
+		if conn != nil {
+			conn.calls = nil
+		}
 		msg := core.Guard(func() { ret = it.rd(in) })
+		if conn != nil { // the Read calls this read made on the connection
+			for _, rc := range conn.calls {
+				ev := core.Ev{"ev": "Recv", "want": rc.want, "got": rc.got}
+				if rc.data != nil {
+					ev["data"] = core.Cp(rc.data)
+				}
+				t.Emit(ev)
+			}
+		}
 		if msg != "" {
 			t.Emit(core.Ev{"ev": "Panic", "op": it.op, "msg": msg})
 			ok = false
 			break
 		}
-		t.Emit(core.Ev{"ev": "R", "ret": ret, "avail": int(in.Available())})
+		if conn != nil {
+			t.Emit(core.Ev{"ev": "R", "ret": ret, "taken": conn.pos})
+		} else {
+			t.Emit(core.Ev{"ev": "R", "ret": ret, "avail": int(in.Available())})
+		}
 		calls++
 		// what the previous read handed back, now that another read has happened on the stream
 		if lastKept >= 0 && kept[lastKept] {
@@ -752,6 +792,7 @@ func Run(c *core.Ctx) error {
 	tp := c.Trace("c01_prog", "Trace_DataX")
 	tl := c.Trace("c01_lens", "Trace_DataX")
 	tc := c.Trace("c01_counts", "Trace_DataX")
+	tn := c.Trace("c01_net", "Trace_DataX")
 
 	// gen "each": one single-op program per op kind and boundary value class
 	if c.WantGen("each") {
@@ -825,8 +866,39 @@ func Run(c *core.Ctx) error {
 			streamM(c, tp, "keep", cas, items, m, r)
 		}
 	}
+	// gen "net": the same kind of programs read back over a connection (NewDataInputNet) that hands the bytes
+	// over in pieces: all at once, element by element, byte by byte, cut inside every element, cut at the edges
+	// of every element (inside its length cell, before its last byte), random, one cut anywhere
+	if c.WantGen("net") {
+		n := c.Pick(210, 2100)
+		for cas := 0; cas < n; cas++ {
+			if !c.Want("net", cas) {
+				continue
+			}
+			r := c.Rng("net", cas)
+			k := 1 + r.Intn(12)
+			if cas == 0 {
+				k = 3 // (the binding self-test uses this one: it must have a read)
+			}
+			items := make([]item, k)
+			bigBudget := 1
+			for i := range items {
+				big := bigBudget > 0 && cas%10 == 5 && r.Intn(3) == 0
+				if big {
+					bigBudget--
+				}
+				items[i] = genItem(r, opNames[r.Intn(len(opNames))], big)
+			}
+			m := drawMode(r)
+			m.quiet = false
+			m.net = 1 + cas%segN
+			streamM(c, tn, "net", cas, items, m, r)
+		}
+	}
 	// gens "lens" / "counts": every kind with a length or count cell at both sides of every boundary of the cell
 	runLens(c, tl, tc)
+	// gens "netlens" / "netcounts": the same cases over a connection that cuts inside the elements
+	runLensNet(c, tn)
 	// gen "static": the static helpers, their results kept
 	runStatic(c, t)
 	// gen "le": little-endian helpers on boundary and random byte strings
